@@ -28,6 +28,7 @@ pub fn set_point_callback(cb: Option<Box<dyn FnMut(&'static str)>>) {
 /// A named schedule point. No-op unless the calling thread installed a callback.
 #[inline]
 pub fn point(label: &'static str) {
+  global_point(label);
   POINT_CB.with(|c| {
     // The callback is taken out while it runs so that a re-entrant point() is a no-op.
     let taken = c.borrow_mut().take();
@@ -109,4 +110,314 @@ impl PlainFramer {
 /// The verdict the inproc transport gives for a (connector, binder) pair of socket types.
 pub fn inproc_compatible(connector: crate::socket::types::SocketType, binder: crate::socket::types::SocketType) -> bool {
   crate::transport::inproc::handshake::validate_socket_compatibility(connector, binder).is_ok()
+}
+
+// --- Global schedule-point callback (used where the code under test runs on runtime threads) ----
+
+static GLOBAL_POINT_CB: parking_lot::RwLock<Option<Arc<dyn Fn(&'static str) + Send + Sync>>> = parking_lot::RwLock::new(None);
+
+/// Installs (or clears) a process-wide schedule-point callback. Checked after the thread-local one.
+pub fn set_global_point_callback(cb: Option<Arc<dyn Fn(&'static str) + Send + Sync>>) {
+  *GLOBAL_POINT_CB.write() = cb;
+}
+
+pub(crate) fn global_point(label: &'static str) {
+  let cb = GLOBAL_POINT_CB.read().clone();
+  if let Some(cb) = cb {
+    cb(label);
+  }
+}
+
+// --- Subscription trie --------------------------------------------------------------------------
+
+pub struct Trie(crate::socket::patterns::trie::SubscriptionTrie);
+
+impl Trie {
+  pub fn new() -> Self {
+    Self(crate::socket::patterns::trie::SubscriptionTrie::new())
+  }
+  pub fn subscribe(&self, topic: &[u8]) {
+    self.0.subscribe(topic)
+  }
+  pub fn unsubscribe(&self, topic: &[u8]) -> bool {
+    self.0.unsubscribe(topic)
+  }
+  pub fn matches(&self, topic: &[u8]) -> bool {
+    self.0.matches(topic)
+  }
+  pub fn get_all_topics(&self) -> Vec<Vec<u8>> {
+    self.0.get_all_topics()
+  }
+}
+
+// --- Reconnect back-off ------------------------------------------------------------------------
+
+pub struct Reconnect(crate::socket::core::state::ReconnectState);
+
+impl Reconnect {
+  pub fn new() -> Self {
+    Self(Default::default())
+  }
+  pub fn on_connection_success(&mut self) {
+    self.0.on_connection_success()
+  }
+  pub fn on_connection_failure(&mut self, base_ivl: std::time::Duration, max_ivl: std::time::Duration) -> std::time::Duration {
+    self.0.on_connection_failure(base_ivl, max_ivl)
+  }
+  pub fn attempts(&self) -> u32 {
+    self.0.current_attempts
+  }
+  pub fn next_attempt_at(&self) -> Option<std::time::Instant> {
+    self.0.next_attempt_at
+  }
+  pub fn is_due(&self, now: std::time::Instant) -> bool {
+    self.0.is_due(now)
+  }
+}
+
+// --- Egress buffer --------------------------------------------------------------------------------
+
+pub struct Egress(crate::sessionx::egress_buffer::EgressBuffer);
+
+impl Egress {
+  pub fn new() -> Self {
+    Self(crate::sessionx::egress_buffer::EgressBuffer::new())
+  }
+  pub fn push(&mut self, data: Bytes, msg_count: usize) {
+    self.0.push(data, msg_count)
+  }
+  pub fn push_priority(&mut self, data: Bytes) {
+    self.0.push_priority(data)
+  }
+  pub fn current_slice(&self) -> Option<Vec<u8>> {
+    self.0.current_slice().map(|s| s.to_vec())
+  }
+  /// The pending slices as the vectored writer would see them (at most `max` of them).
+  pub fn slices(&self, max: usize) -> Vec<Vec<u8>> {
+    let empty: &[u8] = &[];
+    let mut io: Vec<std::io::IoSlice<'_>> = (0..max).map(|_| std::io::IoSlice::new(empty)).collect();
+    let n = self.0.fill_slices(&mut io);
+    io[..n].iter().map(|s| s.to_vec()).collect()
+  }
+  pub fn advance(&mut self, n: usize) -> usize {
+    self.0.advance(n)
+  }
+  pub fn pending_messages(&self) -> usize {
+    self.0.pending_messages()
+  }
+  pub fn total_pending_bytes(&self) -> usize {
+    self.0.total_pending_bytes()
+  }
+  pub fn is_empty(&self) -> bool {
+    self.0.is_empty()
+  }
+}
+
+// --- Wait group -------------------------------------------------------------------------------------
+
+#[derive(Clone)]
+pub struct Wg(crate::runtime::waitgroup::WaitGroup);
+
+impl Wg {
+  pub fn new() -> Self {
+    Self(crate::runtime::waitgroup::WaitGroup::new())
+  }
+  pub fn add(&self, delta: usize) {
+    self.0.add(delta)
+  }
+  pub fn done(&self) {
+    self.0.done()
+  }
+  pub async fn wait(&self) {
+    self.0.wait().await
+  }
+  pub fn get_count(&self) -> usize {
+    self.0.get_count()
+  }
+}
+
+// --- Ready-pipe queue -------------------------------------------------------------------------------
+
+use crate::socket::patterns::ready_pipe_queue::{ReadyPipeQueue, ReadyPipeSender};
+
+pub struct Rpq<T: Send + 'static>(ReadyPipeQueue<T>);
+pub struct RpqSender<T: Send + 'static>(ReadyPipeSender<T>);
+
+/// Outcome of a non-blocking enqueue that did not succeed; the item is handed back.
+pub enum RpqTrySendError<T> {
+  Full(T),
+  Closed(T),
+}
+
+impl<T: Send + 'static> Rpq<T> {
+  pub fn new(ready_capacity: usize) -> Self {
+    Self(ReadyPipeQueue::new(ready_capacity))
+  }
+  pub fn register_pipe(&self, pipe_id: usize, capacity: usize, drain_delta: usize) -> RpqSender<T> {
+    RpqSender(self.0.register_pipe(pipe_id, capacity, drain_delta))
+  }
+  pub fn deregister_pipe(&self, pipe_id: usize) {
+    self.0.deregister_pipe(pipe_id)
+  }
+  pub async fn pop(&self) -> Result<(usize, T), ZmqError> {
+    self.0.pop().await
+  }
+  pub fn try_pop(&self) -> Option<(usize, T)> {
+    self.0.try_pop()
+  }
+  pub fn close(&self) {
+    self.0.close()
+  }
+  /// Number of entries currently in the ready list.
+  pub fn ready_len(&self) -> usize {
+    self.0.ready_rx.len()
+  }
+}
+
+impl<T: Send + 'static> RpqSender<T> {
+  pub async fn send(&self, item: T) -> Result<(), ZmqError> {
+    self.0.send(item).await
+  }
+  pub fn try_send(&self, item: T) -> Result<(), RpqTrySendError<T>> {
+    match self.0.try_send(item) {
+      Ok(()) => Ok(()),
+      Err(fibre::TrySendError::Full(t)) => Err(RpqTrySendError::Full(t)),
+      Err(fibre::TrySendError::Closed(t)) => Err(RpqTrySendError::Closed(t)),
+      Err(fibre::TrySendError::Sent(t)) => Err(RpqTrySendError::Closed(t)),
+    }
+  }
+  pub fn try_send_batch(&self, items: &mut std::collections::VecDeque<T>) -> usize {
+    self.0.try_send_batch(items, |_| 1)
+  }
+  pub fn queued_count(&self) -> usize {
+    self.0.queued_count()
+  }
+  pub fn reserved_count(&self) -> usize {
+    self.0.reserved_count()
+  }
+  pub fn len(&self) -> usize {
+    self.0.len()
+  }
+  pub fn capacity(&self) -> usize {
+    self.0.capacity()
+  }
+}
+
+// --- Load balancer / orchestrator with a scripted connection ---------------------------------------
+
+use crate::socket::connection_iface::ISocketConnection;
+use crate::socket::patterns::OutgoingMessageOrchestrator;
+
+/// An `ISocketConnection` whose readiness is scripted by the harness and which logs what it
+/// was given. `room` is the number of messages it will still accept.
+#[derive(Debug)]
+pub struct ScriptedConn {
+  pub name: String,
+  room: std::sync::atomic::AtomicUsize,
+  closed: std::sync::atomic::AtomicBool,
+  taken: parking_lot::Mutex<Vec<Vec<Vec<u8>>>>,
+  room_changed: tokio::sync::Notify,
+}
+
+impl ScriptedConn {
+  pub fn new(name: &str, room: usize) -> Arc<Self> {
+    Arc::new(Self {
+      name: name.to_string(),
+      room: std::sync::atomic::AtomicUsize::new(room),
+      closed: std::sync::atomic::AtomicBool::new(false),
+      taken: parking_lot::Mutex::new(Vec::new()),
+      room_changed: tokio::sync::Notify::new(),
+    })
+  }
+  pub fn set_room(&self, room: usize) {
+    self.room.store(room, std::sync::atomic::Ordering::SeqCst);
+    self.room_changed.notify_waiters();
+  }
+  pub fn room(&self) -> usize {
+    self.room.load(std::sync::atomic::Ordering::SeqCst)
+  }
+  pub fn close(&self) {
+    self.closed.store(true, std::sync::atomic::Ordering::SeqCst);
+    self.room_changed.notify_waiters();
+  }
+  pub fn taken(&self) -> Vec<Vec<Vec<u8>>> {
+    self.taken.lock().clone()
+  }
+  fn accept(&self, msgs: FrameBatch) -> Result<(), (FrameBatch, ZmqError)> {
+    use std::sync::atomic::Ordering::SeqCst;
+    if self.closed.load(SeqCst) {
+      return Err((msgs, ZmqError::ConnectionClosed));
+    }
+    let mut cur = self.room.load(SeqCst);
+    loop {
+      if cur == 0 {
+        return Err((msgs, ZmqError::ResourceLimitReached));
+      }
+      match self.room.compare_exchange(cur, cur - 1, SeqCst, SeqCst) {
+        Ok(_) => break,
+        Err(now) => cur = now,
+      }
+    }
+    self.taken.lock().push(msgs.iter().map(|m| m.data().unwrap_or(&[]).to_vec()).collect());
+    Ok(())
+  }
+}
+
+#[async_trait::async_trait]
+impl ISocketConnection for ScriptedConn {
+  async fn send_multipart(&self, msgs: FrameBatch) -> Result<(), ZmqError> {
+    let mut msgs = msgs;
+    loop {
+      let notified = self.room_changed.notified();
+      tokio::pin!(notified);
+      notified.as_mut().enable();
+      match self.accept(msgs) {
+        Ok(()) => return Ok(()),
+        Err((back, ZmqError::ResourceLimitReached)) => {
+          msgs = back;
+          notified.await;
+        }
+        Err((_, e)) => return Err(e),
+      }
+    }
+  }
+  fn try_send_multipart_owned_sync(&self, msgs: FrameBatch) -> Result<(), (FrameBatch, ZmqError)> {
+    self.accept(msgs)
+  }
+  async fn close_connection(&self) -> Result<(), ZmqError> {
+    self.close();
+    Ok(())
+  }
+  fn as_any(&self) -> &dyn std::any::Any {
+    self
+  }
+}
+
+pub struct Orchestrator(OutgoingMessageOrchestrator);
+
+impl Orchestrator {
+  pub fn new() -> Self {
+    Self(OutgoingMessageOrchestrator::new())
+  }
+  pub fn add_connection(&self, uri: &str, conn: Arc<ScriptedConn>) {
+    self.0.add_connection(uri.to_string(), conn)
+  }
+  pub fn remove_connection(&self, uri: &str) {
+    self.0.remove_connection(uri)
+  }
+  pub fn deactivate(&self) {
+    self.0.deactivate()
+  }
+  pub fn has_connections(&self) -> bool {
+    self.0.has_connections()
+  }
+  pub async fn wait_for_connection(&self) -> Result<(), ZmqError> {
+    self.0.wait_for_connection().await
+  }
+  pub fn try_route_sync(&self, msgs: FrameBatch) -> Result<(), (FrameBatch, ZmqError)> {
+    self.0.try_route_sync(msgs)
+  }
+  pub async fn route_message(&self, msgs: FrameBatch, wait_for_peer: bool) -> Result<(), (FrameBatch, ZmqError)> {
+    self.0.route_message(msgs, wait_for_peer).await
+  }
 }
